@@ -52,33 +52,36 @@ BASE = dict(Shapes='{"top"}', SubNameSeqs='{<<"child", "a">>}', SinkOps="{TRUE}"
 def _configs(thorough):
     c = []
     # names: many same-module signals with clash-prone names, as inputs/ports, read in top
-    c.append(("names3", dict(Names=CLASH, MaxSigs=3, PortModes='{"no", "auto"}', RdMode='"top"')))
-    c.append(("names4-noports", dict(Names='{"a", "a$3", "a$4", ""}', MaxSigs=4, PortModes='{"no"}', RdMode='"top"')))
+    c.append(("names3", dict(Names=CLASH, MaxSigs=3, PortModes='{"no", "auto"}', RdMode='"top"' if thorough else '"top1"')))
+    c.append(("names4_noports", dict(Names='{"a", "a$3", "a$4", ""}', MaxSigs=4, PortModes='{"no"}', RdMode='"top1"')))
     # routing: one signal, every (driver module, kind) x (set of reading modules) x port mode, all shapes
-    c.append(("route1", dict(Shapes='{"top", "child", "sibs", "chain"}', SubNameSeqs='{<<"child", "a">>, <<"a", "">>}',
+    c.append(("route1", dict(Shapes='{"top", "child", "sibs", "chain"}',
+                             SubNameSeqs='{<<"child", "a">>, <<"a", "">>}' if thorough else '{<<"child", "a">>}',
                              SinkOps="{TRUE, FALSE}" if thorough else "{TRUE}",
                              Names='{"a", "child", ""}', Widths="{0, 2}", MaxSigs=1, Kinds=ALLK, RdMode='"any"',
-                             PortModes='{"no", "auto", "named"}')))
+                             PortModes='{"no", "auto", "named"}' if thorough else '{"no", "auto"}')))
     # extras: memory / instance / buffers / empty submodules anywhere in the tree, names clashing with signals
     c.append(("extras1", dict(Shapes='{"top", "child", "chain"}', SubNameSeqs='{<<"child", "a">>}', Names='{"a"}', Widths="{2}",
-                              MaxSigs=1, Kinds='{"none", "sync"}', RdMode='"one"', PortModes='{"auto"}',
+                              MaxSigs=1, Kinds='{"none", "sync"}' if thorough else '{"none"}',
+                              RdMode='"one"' if thorough else '"top1"', PortModes='{"auto"}',
                               ExtraKinds=EXTRA_KINDS, ExtraNames='{"", "a", "x"}', MaxExtras=1)))
     if thorough:
-        c.append(("names4", dict(Names=CLASH, MaxSigs=4, PortModes='{"no", "auto"}', RdMode='"top"')))
-        c.append(("names3-child", dict(Shapes='{"child"}', SubNameSeqs='{<<"a", "">>, <<"a$2", "">>}', Names='{"a", "a$2", "a$3", ""}',
-                                       MaxSigs=3, Kinds='{"none", "not"}', PortModes='{"no", "auto"}', RdMode='"one"')))
+        c.append(("names4", dict(Names=CLASH, MaxSigs=4, PortModes='{"no", "auto"}', RdMode='"top1"')))
+        c.append(("names3_child", dict(Shapes='{"child"}', SubNameSeqs='{<<"a", "">>, <<"a$2", "">>}', Names='{"a", "a$2", "a$3", ""}',
+                                       MaxSigs=3, Kinds='{"none"}', PortModes='{"no", "auto"}', RdMode='"one"')))
         c.append(("route2", dict(Shapes='{"sibs", "chain"}', SubNameSeqs='{<<"child", "a">>}', SinkOps="{TRUE, FALSE}",
-                                 Names='{"a"}', Widths="{1}", MaxSigs=2, Kinds=ALLK, RdMode='"any"', PortModes='{"no", "auto"}')))
+                                 Names='{"a"}', Widths="{1}", MaxSigs=2, Kinds='{"none", "not", "sync"}', RdMode='"any"',
+                                 PortModes='{"no", "auto"}')))
         c.append(("extras2", dict(Shapes='{"child", "sibs"}', SubNameSeqs='{<<"child", "a">>}', Names='{"a"}', Widths="{2}",
                                   MaxSigs=0, ExtraKinds=EXTRA_KINDS, ExtraNames='{"", "a"}', MaxExtras=2)))
     else:
         c.append(("route2", dict(Shapes='{"chain"}', SubNameSeqs='{<<"child", "a">>}', Names='{"a"}', Widths="{1}", MaxSigs=2,
-                                 Kinds='{"none", "not", "sync"}', RdMode='"one"', PortModes='{"no", "auto"}')))
+                                 Kinds='{"none", "not", "sync"}', RdMode='"one"', PortModes='{"no"}')))
     return [(n, dict(BASE, **d)) for n, d in c]
 
 
-def _mc_module(consts):
-    lines = ["---- MODULE MC_HierGen ----", "EXTENDS HierGen"]
+def _mc_module(consts, name="MC_HierGen"):
+    lines = ["---- MODULE %s ----" % name, "EXTENDS HierGen"]
     cfg = ["SPECIFICATION Spec", "CHECK_DEADLOCK FALSE", "INVARIANT Legit", "CONSTANTS"]
     for k, v in consts.items():
         lines.append("C_%s == %s" % (k, v))
@@ -441,26 +444,33 @@ def convert_and_parse(top, ports, foreign, emit_src=True, origin=None):
     return ("doc", rp.wf_document(doc, foreign, origin=origin), len(text))
 
 
-def _hier_worker(job):
-    path, lo, hi, cfgname = job
+def _pack(res):
+    """documents travel as JSON text from the workers to the batch files"""
+    if res[0] == "doc":
+        return ("doc", json.dumps(res[1], separators=(",", ":")))
+    return res
+
+
+def _worker(job):
+    """("hier", config, dump path, lo, hi) | ("random", [(seed, size)...]) -> [(source, description, result)...]"""
     out = []
-    for st in expr_replay.iter_states_range(path, lo, hi):
-        d = _norm_desc(st)
-        fp = json.dumps(d, sort_keys=True)
-        try:
-            top, ports, foreign = build_hier(d)
-        except Exception:
-            raise MachineryError("HierGen description could not be rendered (generator error, not amaranth's):\n%s\n%s"
-                                 % (fp, traceback.format_exc()))
-        res = convert_and_parse(top, ports, foreign, emit_src=(hash(fp) & 1) == 0)
-        out.append((d, res))
+    if job[0] == "hier":
+        _k, cfgname, path, lo, hi = job
+        for st in expr_replay.iter_states_range(path, lo, hi):
+            d = _norm_desc(st)
+            fp = json.dumps(d, sort_keys=True)
+            try:
+                top, ports, foreign = build_hier(d)
+            except Exception:
+                raise MachineryError("HierGen description could not be rendered (generator error, not amaranth's):\n%s\n%s"
+                                     % (fp, traceback.format_exc()))
+            res = convert_and_parse(top, ports, foreign, emit_src=(len(fp) & 1) == 0)
+            out.append(("hiergen/" + cfgname, d, _pack(res)))
+    else:
+        for seed, size in job[1]:
+            top, ports, foreign = build_random(seed, size)
+            out.append(("random", {"seed": seed, "size": size}, _pack(convert_and_parse(top, ports, foreign, emit_src=bool(seed & 1)))))
     return out
-
-
-def _random_worker(job):
-    seed, size = job
-    top, ports, foreign = build_random(seed, size)
-    return ({"seed": seed, "size": size}, convert_and_parse(top, ports, foreign, emit_src=bool(seed & 1)))
 
 
 # ------------------------------------------------------------------------------------------------------------------
@@ -469,39 +479,66 @@ def _random_worker(job):
 _CFG = "SPECIFICATION Spec\nCHECK_DEADLOCK FALSE\nINVARIANT TypeOK\n"
 
 
-def validate_documents(ctx, docs, stage, batch_size=1500, workers=8, count=True):
-    """docs: list of rtlil_parse.wf_document results.  Returns verdicts aligned with docs:
-    ("ACC", n_modules, n_bits, n_cells) or ("REJ", module, clause, detail).  Reusable (C04)."""
+def validate_documents(ctx, docs, stage, batch_bytes=3_000_000, batch_docs=2500, workers=6, parallel=3, count=True):
+    """docs: list of rtlil_parse.wf_document results (dicts, or their JSON text).  Returns verdicts aligned with docs:
+    ("ACC", n_modules, n_bits, n_cells) or ("REJ", module, clause, detail).  Batches are judged by concurrent TLC runs.
+    Reusable (C04)."""
+    from concurrent.futures import ThreadPoolExecutor
+    texts = [d if isinstance(d, str) else json.dumps(d, separators=(",", ":")) for d in docs]
+    batches, cur, size = [], [], 0
+    for i, t in enumerate(texts):
+        if cur and (size + len(t) > batch_bytes or len(cur) >= batch_docs):
+            batches.append(cur)
+            cur, size = [], 0
+        cur.append(i)
+        size += len(t)
+    if cur:
+        batches.append(cur)
     verdicts = [None] * len(docs)
     st_name = "%s/validate" % stage
-    for off in range(0, len(docs), batch_size):
-        part = docs[off:off + batch_size]
-        path = os.path.join(ctx.tmp, "rtlilwf_%s_%d.json" % (re.sub(r"\W", "_", stage), off))
+    tag = re.sub(r"\W", "_", stage)
+
+    def one(bi):
+        idx = batches[bi]
+        path = os.path.join(ctx.tmp, "rtlilwf_%s_%d.json" % (tag, bi))
         with open(path, "w") as f:
-            json.dump({"traces": part}, f)
+            f.write('{"traces":[')
+            f.write(",".join(texts[i] for i in idx))
+            f.write("]}")
         r = ctx.tlc("RtlilWF", stage=st_name, cfg_text=_CFG, env={"TRACE_FILE": path}, workers=workers, count=False,
                     timeout=3600)
-        st = ctx.cov["stages"][st_name]
-        st["batches"] = st.get("batches", 0) + 1
-        st["trace_states"] = st.get("trace_states", 0) + r.distinct
-        if count:
-            ctx.cov["trace_states_checked"] = ctx.cov.get("trace_states_checked", 0) + r.distinct
+        os.unlink(path)
+        got = {}
         for txt in r.printed():
             head = re.sub(r"\s+", "", txt[:12])
             if not (head.startswith('<<"ACC"') or head.startswith('<<"REJ"')):
                 continue
             v = tlaval.parse(txt)
-            i = off + v[1] - 1
+            i = idx[v[1] - 1]
             if v[0] == "ACC":
-                verdicts[i] = ("ACC",) + tuple(v[2:])
-            elif verdicts[i] is None:
-                verdicts[i] = ("REJ",) + tuple(v[2:])
-        os.unlink(path)
+                got[i] = ("ACC",) + tuple(v[2:])
+            elif i not in got:
+                got[i] = ("REJ",) + tuple(v[2:])
+        return r.distinct, r.wall, got
+
+    with ThreadPoolExecutor(max(1, parallel)) as ex:
+        results = list(ex.map(one, range(len(batches))))
+    states = 0
+    for distinct, _wall, got in results:
+        states += distinct
+        for i, v in got.items():
+            verdicts[i] = v
+    st = ctx.cov["stages"].setdefault(st_name, {})
+    st.update({"batches": len(batches), "documents": len(docs), "trace_states": states,
+               "tlc_wall_s": round(sum(w for _d, w, _g in results), 1)})
+    st.pop("tlc_states", None)
+    st.pop("tlc_generated", None)
+    if count:
+        ctx.cov["trace_states_checked"] = ctx.cov.get("trace_states_checked", 0) + states
+        ctx.cov["traces_validated_against_impl"] += len(docs)
     missing = [i for i, v in enumerate(verdicts) if v is None]
     if missing:
         raise MachineryError("RtlilWF: no verdict for %d documents (first: %d) in stage %s" % (len(missing), missing[0], stage))
-    if count:
-        ctx.cov["traces_validated_against_impl"] += len(docs)
     return verdicts
 
 
@@ -511,38 +548,39 @@ def _detail_code(detail):
     return str(detail)[:60]
 
 
-def _judge(ctx, source, items, stage):
-    """items: [(description, convert_and_parse result)].  Reports violations; returns (n_docs, accepted verdicts)."""
+def _judge(ctx, entries, stage):
+    """entries: [(source, description, result)].  Reports violations; returns (document texts, owners, verdicts)."""
     docs, owners = [], []
     raises = {}
-    for d, res in items:
+    for source, d, res in entries:
         if res[0] == "doc":
             docs.append(res[1])
-            owners.append(d)
+            owners.append((source, d))
         elif res[0] == "convert_raises":
-            raises.setdefault((res[1], res[2]), []).append((d, res))
+            raises.setdefault((res[1], res[2]), []).append((source, d, res))
         else:
             key = {"clause": "Parses", "source": source, "error": res[1][:160]}
             ctx.violation(key, "the RTLIL reader refuses the text emitted for %s: %s" % (json.dumps(d), res[1]),
                           replay={"source": source, "design": d, "text": res[2]})
     for (err, where), lst in sorted(raises.items()):
-        lst.sort(key=lambda x: len(json.dumps(x[0])))
-        ctx.cov.setdefault("convert_raises", {})["%s@%s/%s" % (err, where, source)] = len(lst)
-        for d, res in lst[:4]:
+        lst.sort(key=lambda x: (len(x[1].get("sigs", ())) + len(x[1].get("extras", ())), len(json.dumps(x[1]))))
+        by_src = {}
+        for source, _d, _r in lst:
+            by_src[source] = by_src.get(source, 0) + 1
+        ctx.cov.setdefault("convert_raises", {})["%s@%s" % (err, where)] = by_src
+        for source, d, res in lst[:4]:
             key = {"clause": "convert_raises", "error": err, "where": where, "source": source}
             if "sigs" in d:
                 key["names"] = [s["n"] for s in d["sigs"]]
-                key["design"] = _short(d)
-            else:
-                key["design"] = d
-            ctx.violation(key, "rtlil.convert raises %s (%s) in %s on a legal design (%d such designs in this run, smallest "
-                               "shown): %s" % (err, res[3], where, len(lst), json.dumps(d)),
+            key["design"] = _short(d)
+            ctx.violation(key, "rtlil.convert raises %s (%s) in %s on a legal design (%d such designs in this run: %s; smallest "
+                               "shown): %s" % (err, res[3], where, len(lst), by_src, json.dumps(d)),
                           replay={"source": source, "design": d})
     verdicts = validate_documents(ctx, docs, stage)
     n_rej = 0
-    for d, doc, v in zip(owners, docs, verdicts):
-        nontrivial = v[0] == "ACC" and v[2] > 0
-        ctx.case((source, json.dumps(d, sort_keys=True)), nontrivial=nontrivial or v[0] == "REJ")
+    for (source, d), v in zip(owners, verdicts):
+        nontrivial = v[0] == "REJ" or v[2] > 0
+        ctx.case((source, json.dumps(d, sort_keys=True)), nontrivial=nontrivial)
         if v[0] == "REJ":
             n_rej += 1
             if n_rej > 12:
@@ -552,7 +590,7 @@ def _judge(ctx, source, items, stage):
                 json.dumps(d), v[1], v[2], tlaval_text(v[3])), replay={"source": source, "design": d})
     if n_rej > 12:
         ctx.notes.append("%s: %d documents rejected in total, 12 reported" % (stage, n_rej))
-    return docs, verdicts
+    return docs, owners, verdicts
 
 
 def tlaval_text(v):
@@ -610,22 +648,10 @@ def _selftest_reader():
 
 def _binding_demo(ctx, docs, verdicts):
     """Doctored copies of an accepted document must be rejected, each by the clause that was broken."""
-    pick = None
-    for doc, v in zip(docs, verdicts):
-        if v[0] != "ACC" or len(doc["mods"]) < 2:
-            continue
-        top = doc["mods"][0]
-        subs = [c for c in top["cells"] if c[0] in {m["name"] for m in doc["mods"]}]
-        if subs and subs[0][3] and top["conns"] and any(w[2] == "input" and w[1] > 0 for w in top["wires"]) \
-                and len([w for w in top["wires"] if w[2]]) >= 2:
-            pick = doc
-            break
-    if pick is None:
-        raise MachineryError("binding demo: no accepted two-module document with a connection and an input port")
-    names = {m["name"] for m in pick["mods"]}
+    names = set()
 
-    def mut(fn):
-        d = copy.deepcopy(pick)
+    def mut(doc, fn):
+        d = copy.deepcopy(doc)
         fn(d)
         return d
 
@@ -666,7 +692,20 @@ def _binding_demo(ctx, docs, verdicts):
     muts = [(dup_connect, "ExactlyOneDriver"), (drive_input, "ExactlyOneDriver"), (missing_wire, "RefsExist"),
             (widen, "WidthsAgree"), (port_gap, "PortIdsDense"), (drop_port, "SubmoduleCellsMatch"), (dup_name, "UniqueNames"),
             (out_of_bounds, "SlicesInBounds")]
-    bad = [mut(f) for f, _ in muts]
+    bad = None
+    for doc, v in zip(docs, verdicts):
+        if v[0] != "ACC" or v[1] < 2:
+            continue
+        doc = json.loads(doc) if isinstance(doc, str) else doc
+        names.clear()
+        names.update(m["name"] for m in doc["mods"])
+        try:
+            bad = [mut(doc, f) for f, _ in muts]
+        except (StopIteration, IndexError):
+            continue
+        break
+    if bad is None:
+        raise MachineryError("binding demo: no accepted document with a submodule, a connection and a used input port")
     vs = validate_documents(ctx, bad, "binding-demo", count=False)
     report = []
     for (f, clause), v in zip(muts, vs):
@@ -678,57 +717,80 @@ def _binding_demo(ctx, docs, verdicts):
 
 # ------------------------------------------------------------------------------------------------------------------
 def run(ctx):
+    from concurrent.futures import ThreadPoolExecutor
+    import amaranth.hdl, amaranth.back.rtlil, amaranth.lib.memory  # noqa: F401,E401  (before forking the pool)
     th = ctx.thorough
     n_bad = _selftest_reader()
     ctx.cov["stages"]["reader-selftest"] = {"malformed_texts_refused": n_bad, "reference_text_read": True}
 
-    all_docs, all_verdicts = [], []
-    total_states = 0
-    for name, consts in _configs(th):
-        mod_text, cfg_text = _mc_module(consts)
-        dump = os.path.join(ctx.tmp, "hiergen_" + name)
-        stage = "hiergen/" + name
-        t0 = time.time()
-        r = ctx.tlc("MC_HierGen", stage=stage, cfg_text=cfg_text, workers=4, args=("-coverage", "1", "-dump", dump),
-                    extra_files={"MC_HierGen.tla": mod_text})
-        t0 = _t(ctx, stage + " enumerate", t0)
-        need = ["AddSig"] if consts["MaxSigs"] else []
-        need += ["AddExtra"] if consts["MaxExtras"] else []
-        ctx.require_actions(r, need, stage)
-        path = dump + ".dump"
-        parts = pmap(_hier_worker, [(path, lo, hi, name) for lo, hi in expr_replay.split_dump(path, 64)])
-        os.unlink(path)
-        items = [x for p in parts for x in p]
-        if len(items) != r.distinct:
-            raise MachineryError("%s: rendered %d designs, TLC enumerated %d" % (stage, len(items), r.distinct))
-        total_states += r.distinct
-        t0 = _t(ctx, stage + " render+convert+parse", t0)
-        docs, verdicts = _judge(ctx, "hiergen/" + name, items, stage)
-        t0 = _t(ctx, stage + " judge", t0)
-        ctx.cov["stages"][stage].update({"designs": len(items), "documents": len(docs)})
-        all_docs += docs
-        all_verdicts += verdicts
-        if docs:
-            big = max(range(len(docs)), key=lambda i: verdicts[i][3] if verdicts[i][0] == "ACC" else -1)
-            ctx.sample({"config": name, "verdict": list(map(str, verdicts[big])), "modules": [m["name"] for m in docs[big]["mods"]]})
-
-    # ---- seeded random bigger designs --------------------------------------------------------------
-    n_rand = 3000 if th else 300
-    jobs = [(ctx.rng.getrandbits(40), 6 if i % 3 else 3) for i in range(n_rand)]
+    # ---- HierGen: TLC enumerates the design descriptions (all configurations concurrently) ----------------
     t0 = time.time()
-    items = pmap(_random_worker, jobs, chunksize=8)
-    t0 = _t(ctx, "random render+convert+parse", t0)
-    docs, verdicts = _judge(ctx, "random", items, "random")
-    t0 = _t(ctx, "random judge", t0)
-    ctx.cov["stages"]["random"] = dict(ctx.cov["stages"].get("random", {}), designs=len(items), documents=len(docs),
-                                       cells=sum(v[3] for v in verdicts if v[0] == "ACC"),
-                                       wire_bits=sum(v[2] for v in verdicts if v[0] == "ACC"))
+    cfgs = _configs(th)
 
-    # ---- binding: doctored documents must be rejected; generator mutant --------------------------------
-    _binding_demo(ctx, all_docs, all_verdicts)
-    mod_text, cfg_text = _mc_module(dict(BASE, Names='{"a", ""}', MaxSigs=1, PortModes='{"no", "auto"}', PrivatePortsAllowed="TRUE"))
-    ctx.tlc("MC_HierGen", stage="hiergen/mutant-private-port", cfg_text=cfg_text, workers=2, expect_violation="Legit",
-            extra_files={"MC_HierGen.tla": mod_text})
+    def enumerate_cfg(nc):
+        name, consts = nc
+        mod = "MC_HierGen_" + name
+        mod_text, cfg_text = _mc_module(consts, mod)
+        dump = os.path.join(ctx.tmp, "hiergen_" + name)
+        r = ctx.tlc(mod, stage="hiergen/" + name, cfg_text=cfg_text, workers=2, args=("-coverage", "1", "-dump", dump),
+                    extra_files={mod + ".tla": mod_text})
+        need = (["AddSig"] if consts["MaxSigs"] else []) + (["AddExtra"] if consts["MaxExtras"] else [])
+        ctx.require_actions(r, need, "hiergen/" + name)
+        return name, dump + ".dump", r.distinct
+
+    def mutant(_):
+        mod_text, cfg_text = _mc_module(dict(BASE, Names='{"a", ""}', MaxSigs=1, PortModes='{"no", "auto"}',
+                                             PrivatePortsAllowed="TRUE"), "MC_HierGen_mutant")
+        ctx.tlc("MC_HierGen_mutant", stage="hiergen/mutant-private-port", cfg_text=cfg_text, workers=1, expect_violation="Legit",
+                extra_files={"MC_HierGen_mutant.tla": mod_text})
+
+    with ThreadPoolExecutor(8) as ex:
+        fm = ex.submit(mutant, None)
+        dumps = list(ex.map(enumerate_cfg, cfgs))
+        fm.result()
+    t0 = _t(ctx, "enumerate (TLC, %d configurations)" % len(cfgs), t0)
+
+    # ---- render + convert + parse, one pool for everything -------------------------------------------------
+    jobs = []
+    for name, path, n in dumps:
+        for lo, hi in expr_replay.split_dump(path, max(1, min(64, n // 40))):
+            jobs.append(("hier", name, path, lo, hi))
+    n_rand = 3000 if th else 250
+    rjobs = [(ctx.rng.getrandbits(40), 6 if i % 3 else 3) for i in range(n_rand)]
+    jobs += [("random", rjobs[i:i + 10]) for i in range(0, n_rand, 10)]
+    parts = pmap(_worker, jobs)
+    entries = [x for p in parts for x in p]
+    for name, path, n in dumps:
+        os.unlink(path)
+        got = sum(1 for e in entries if e[0] == "hiergen/" + name)
+        if got != n:
+            raise MachineryError("hiergen/%s: rendered %d designs, TLC enumerated %d" % (name, got, n))
+        ctx.cov["stages"]["hiergen/" + name]["designs"] = n
+    t0 = _t(ctx, "render+convert+parse (%d designs)" % len(entries), t0)
+
+    # ---- judgement by RtlilWF ---------------------------------------------------------------------------------
+    docs, owners, verdicts = _judge(ctx, entries, "documents")
+    t0 = _t(ctx, "judge (%d documents)" % len(docs), t0)
+    by_src = {}
+    for (source, _d), v in zip(owners, verdicts):
+        e = by_src.setdefault(source, {"documents": 0, "accepted": 0, "wire_bits": 0, "cells": 0})
+        e["documents"] += 1
+        if v[0] == "ACC":
+            e["accepted"] += 1
+            e["wire_bits"] += v[2]
+            e["cells"] += v[3]
+    for source, e in by_src.items():
+        ctx.cov["stages"].setdefault(source, {}).update(e)
+    for want in ("hiergen/extras1", "hiergen/route1", "random"):
+        idx = [i for i, (o, v) in enumerate(zip(owners, verdicts)) if o[0] == want and v[0] == "ACC"]
+        if idx:
+            i = max(idx, key=lambda i: verdicts[i][3])
+            ctx.sample({"source": want, "design": _short(owners[i][1]), "verdict": list(verdicts[i]),
+                        "modules": [m["name"] for m in json.loads(docs[i])["mods"]]})
+
+    # ---- binding: doctored documents must be rejected ---------------------------------------------------------
+    _binding_demo(ctx, docs, verdicts)
+    t0 = _t(ctx, "binding demo", t0)
 
     ctx.cov["exhaustive"] = False
     ctx.cov["rule"] = ("case = one design (a HierGen state rendered with amaranth, or a seeded random design) whose emitted "
